@@ -38,8 +38,10 @@ def run(chk, replay=None):
                 'active bin), several rate tables; traces = random forecasts with captured simulated catalogs. non-trivial = '
                 'distinct (kind, rate-ids, activity) with several events in a bin, a zero rate, or no event')
 
-    def call(kind, fc, cat, nsim, seed):
+    def call(kind, fc, cat, nsim, seed, random_numbers=None):
         fn = {'BLL': be.binary_conditional_likelihood_test, 'BLLS': be.binary_spatial_test, 'BRIER': br.brier_score_test}[kind]
+        if random_numbers is not None:
+            return guarded_timeout(20, fn, fc, cat, num_simulations=nsim, random_numbers=random_numbers)
         return guarded_timeout(20, fn, fc, cat, num_simulations=nsim, seed=seed)
 
     def laid(a, lay):
@@ -178,8 +180,21 @@ def run(chk, replay=None):
         fc = B.forecast(data)
         cat = B.catalog(w, nc, nb, rng)
         mod = {'BLL': ('binary', be), 'BLLS': ('binary', be), 'BRIER': ('brier', br)}[kind]
+        rn = None
+        if t % 3 == 2:
+            # injected uniform numbers, several of them in one bin: the simulated catalog then holds more than one event
+            # there, and its score still depends on activity only
+            from vh.invcdf import Cdf
+            flat = [float(x) for x in (data.sum(axis=1) if kind == 'BLLS' else data.ravel())]
+            cdf_ = Cdf(flat)
+            n_act = sum(1 for r_ in w if sum(r_) > 0) if kind == 'BLLS' else sum(1 for r_ in w for x in r_ if x > 0)
+            rn = numpy.zeros((3, n_act))
+            for s_ in range(3):
+                for e_ in range(n_act):
+                    u_, k_ = cdf_.safe_draw(rng)
+                    rn[s_, e_] = u_ if (e_ == 0 or rng.random() < 0.5) else rn[s_, e_ - 1]
         with Capture(numpy, {mod[0]: mod[1]}) as cap:
-            res = call(kind, fc, cat, 3, chk.seed + t)
+            res = call(kind, fc, cat, 3, chk.seed + t, random_numbers=rn if (rn is not None and rn.shape[1] > 0) else None)
         chk.count()
         sims = []
         for (name, tgt, weights, draws, out) in cap.calls:
